@@ -418,9 +418,15 @@ def r9(ctx, facts):
         raise AnchorLost("expected the (node, shard) pairs of with_computed_shard and of the tablet arms in routing::locator, found %d" % n)
 
 
+def r10(ctx, facts):
+    """shared with C15 (the tablet map's side of it): tablet replicas must follow a node whose Node object was re-created, else routing keeps seeing the old, pool-less object"""
+    from .c15 import r10 as c15_r10
+    c15_r10(ctx, facts)
+
+
 def check(ctx):
     facts = inline_view(ctx.facts("default"))
-    for fn in (r1, r2, r3, r4, r5, r6, r7, r8, r9):
+    for fn in (r1, r2, r3, r4, r5, r6, r7, r8, r9, r10):
         try:
             fn(ctx, facts)
         except AnchorLost as ex:
